@@ -11,6 +11,8 @@ import signal
 import time
 import faulthandler
 
+_monotonic, _sleep = time.monotonic, time.sleep      # the real clock, whatever the simulation installs later
+
 
 # optional hooks run in the parent around os.fork() (set by ctx: the synchronisation seam must be
 # in place while at-fork handlers of the library run in the child)
@@ -71,11 +73,11 @@ def fork_call(fn, args=(), wall_timeout=120.0):
     # ---- parent ----
     os.close(w)
     chunks = []
-    deadline = time.monotonic() + wall_timeout
+    deadline = _monotonic() + wall_timeout
     timed_out = False
     try:
         while True:
-            left = deadline - time.monotonic()
+            left = deadline - _monotonic()
             if left <= 0:
                 timed_out = True
                 break
@@ -92,7 +94,7 @@ def fork_call(fn, args=(), wall_timeout=120.0):
     if timed_out:
         try:
             os.kill(pid, signal.SIGUSR1)       # dump the child's Python stacks to stderr
-            time.sleep(0.3)
+            _sleep(0.3)
             os.kill(pid, signal.SIGKILL)
         except ProcessLookupError:
             pass
